@@ -1,4 +1,4 @@
-import PasetoModel.Claims
+import PasetoModel.ClaimsLemmas
 /-! # C14 — RegisteredClaims / Json wire form -/
 namespace PM.C14
 
@@ -63,88 +63,6 @@ theorem ignores_unknown (l : Members) (acc : Acc) :
       · rfl
       · cases convO f v <;> simp [ih]
 
-theorem set_comm (a : Acc) (f g : Fld) (x y : Option FVal) (h : f ≠ g) :
-    (a.set f x).set g y = (a.set g y).set f x := by
-  funext k
-  simp only [Acc.set]
-  by_cases h1 : k = g <;> by_cases h2 : k = f <;> simp_all
-
-/-- one step of the visitor loop (`none` = the loop returns a payload error) -/
-def stepO (m : Bytes × JVal) (acc : Acc) : Option Acc :=
-  match fieldOf m.1 with
-  | some f => if (acc f).isSome then none else (convO f m.2).map (acc.set f)
-  | none => some acc
-
-theorem decodeGo_cons (m : Bytes × JVal) (rest : Members) (acc : Acc) :
-    decodeGo (m :: rest) acc =
-      match stepO m acc with | some a => decodeGo rest a | none => .err .payload := by
-  obtain ⟨k, v⟩ := m
-  simp only [decodeGo, stepO]
-  cases fieldOf k with
-  | none => rfl
-  | some f =>
-    simp only []
-    split
-    · rfl
-    · cases convO f v <;> rfl
-
-theorem stepO_none {m : Bytes × JVal} (h : fieldOf m.1 = none) (acc : Acc) : stepO m acc = some acc := by
-  simp [stepO, h]
-theorem stepO_some {m : Bytes × JVal} {f : Fld} (h : fieldOf m.1 = some f) (acc : Acc) :
-    stepO m acc = if (acc f).isSome then none else (convO f m.2).map (acc.set f) := by
-  simp [stepO, h]
-
-/-- two adjacent members that are not the same registered claim commute -/
-theorem stepO_comm (x y : Bytes × JVal) (acc : Acc)
-    (h : ∀ f, fieldOf x.1 = some f → fieldOf y.1 ≠ some f) :
-    (stepO x acc).bind (stepO y) = (stepO y acc).bind (stepO x) := by
-  cases hx : fieldOf x.1 with
-  | none =>
-    cases hy : fieldOf y.1 with
-    | none => simp [stepO_none hx, stepO_none hy]
-    | some g =>
-      simp only [stepO_none hx, stepO_some hy, Option.bind_some]
-      split
-      · rfl
-      · cases convO g y.2 <;> simp [stepO_none hx]
-  | some f =>
-    cases hy : fieldOf y.1 with
-    | none =>
-      simp only [stepO_none hy, stepO_some hx, Option.bind_some]
-      split
-      · rfl
-      · cases convO f x.2 <;> simp [stepO_none hy]
-    | some g =>
-      have hfg : f ≠ g := fun e => h f hx (by rw [hy, e])
-      have hgf : g ≠ f := Ne.symm hfg
-      simp only [stepO_some hx, stepO_some hy]
-      cases hcx : convO f x.2 with
-      | none =>
-        cases hcy : convO g y.2 with
-        | none => by_cases a1 : (acc f).isSome = true <;> by_cases a2 : (acc g).isSome = true <;> simp [a1, a2]
-        | some vy =>
-          by_cases a1 : (acc f).isSome = true <;> by_cases a2 : (acc g).isSome = true <;>
-            simp [a1, a2, stepO_some hx, hcx, Acc.set, hfg]
-      | some vx =>
-        cases hcy : convO g y.2 with
-        | none =>
-          by_cases a1 : (acc f).isSome = true <;> by_cases a2 : (acc g).isSome = true <;>
-            simp [a1, a2, stepO_some hy, hcy, Acc.set, hgf]
-        | some vy =>
-          by_cases a1 : (acc f).isSome = true <;> by_cases a2 : (acc g).isSome = true <;>
-            simp [a1, a2, stepO_some hx, stepO_some hy, hcx, hcy, Acc.set, hfg, hgf]
-          exact (set_comm acc f g vx vy hfg)
-
-theorem swap_ok (x y : Bytes × JVal) (rest : Members) (acc : Acc)
-    (h : ∀ f, fieldOf x.1 = some f → fieldOf y.1 ≠ some f) :
-    decodeGo (x :: y :: rest) acc = decodeGo (y :: x :: rest) acc := by
-  have hc := stepO_comm x y acc h
-  simp only [decodeGo_cons]
-  cases hx : stepO x acc <;> cases hy : stepO y acc <;> simp only [hx, hy, Option.bind_some, Option.bind_none] at hc ⊢
-  · rw [← hc]
-  · rw [hc]
-  · rw [hc]
-
 /-- registered keys occur at most once -/
 def NoDupRegistered (l : Members) : Prop := (l.filterMap (fun m => fieldOf m.1)).Nodup
 
@@ -181,81 +99,6 @@ theorem order_irrelevant (l l' : Members) (hp : l.Perm l') (hn : NoDupRegistered
       unfold NoDupRegistered at hn ⊢
       exact (List.Perm.nodup_iff (h1.filterMap _)).mp hn
     rw [ih1 hn acc, ih2 hn2 acc]
-
-/-- value the final accumulator holds for a claim, in terms of the *last* member with that name:
-    whenever decoding succeeds, each registered claim has the value a generic (last-wins) JSON
-    parser reads for that member — including the `{"iss":null,"iss":"x"}` corner, which succeeds. -/
-theorem decodeGo_lookupLast (l : Members) (acc a : Acc) (h : decodeGo l acc = .ok a) (f : Fld) :
-    a f = match lookupLast l f.name with
-          | some v => (convO f v).getD none
-          | none => acc f := by
-  induction l generalizing acc with
-  | nil => simp [decodeGo] at h; simp [lookupLast, h]
-  | cons m rest ih =>
-    obtain ⟨k, v⟩ := m
-    simp only [decodeGo] at h
-    have name_inj : ∀ g : Fld, fieldOf g.name = some g := by intro g; cases g <;> decide
-    have of_name : ∀ (k : Bytes) (g : Fld), fieldOf k = some g → k = g.name := by
-      intro k g hk
-      unfold fieldOf at hk
-      repeat' split at hk
-      all_goals (first | (injection hk with hk; subst hk; assumption) | (simp at hk))
-    cases hf : fieldOf k with
-    | none =>
-      simp only [hf] at h
-      have := ih acc h
-      rw [this]
-      simp only [lookupLast]
-      cases lookupLast rest f.name with
-      | some _ => rfl
-      | none =>
-        have : k ≠ f.name := by intro e; rw [e, name_inj] at hf; simp at hf
-        simp [this]
-    | some g =>
-      simp only [hf] at h
-      split at h
-      · simp at h
-      · rename_i hnone
-        cases hc : convO g v with
-        | none => simp [hc] at h
-        | some x =>
-          simp only [hc] at h
-          have := ih _ h
-          rw [this]
-          simp only [lookupLast]
-          cases lookupLast rest f.name with
-          | some _ => rfl
-          | none =>
-            by_cases hk : k = f.name
-            · have : g = f := by rw [hk, name_inj] at hf; injection hf with hf; exact hf.symm
-              subst this
-              simp [hk, Acc.set, hc]
-            · have : f ≠ g := by intro e; subst e; exact hk (of_name k f hf)
-              simp [hk, Acc.set, this]
-
-/-- generic reading of a member: `null` or absent ↦ no claim -/
-def optOfJ (f : Fld) : Option JVal → Option FVal
-  | some v => (convO f v).getD none
-  | none => none
-
-/-- values produced by the field converters have the field's type -/
-def typed (f : Fld) : Option FVal → Prop
-  | none => True
-  | some (.s _) => f.isTime = false
-  | some (.t _) => f.isTime = true
-
-theorem convO_typed (f : Fld) (v : JVal) : typed f ((convO f v).getD none) := by
-  cases v <;> simp [convO, typed]
-  rename_i s ts
-  by_cases h : f.isTime = true
-  · cases ts <;> simp [h, typed]
-  · simp [h, typed]
-
-theorem get_toClaims (a : Acc) (f : Fld) (h : typed f (a f)) : a.toClaims.get f = a f := by
-  cases f <;> simp only [Acc.toClaims, Claims.get] <;>
-    (cases hv : a _ with
-     | none => simp [getS, getT]
-     | some x => cases x <;> simp_all [typed, getS, getT, Fld.isTime])
 
 /-- **Agreement with a generic JSON parser.**  Whenever decoding succeeds, every registered claim
     has exactly the value a generic (last-duplicate-wins) parser reads for that member: absent or
